@@ -304,7 +304,7 @@ Lemma invL_yield : forall s v ce d, InvL s -> (forall c, pend_ok s v (PSwitch c 
 Proof.
   intros s v ce d I P. unfold do_yield. destruct (v_runq _) as [|c [|n rest]]; try (apply (invL_frame s); [apply Lrel_same; reflexivity|auto]).
   set (s2 := modth (switch_in s n) c _).
-  assert (R : Lrel s s2). { unfold s2. apply (Lrel_trans s (switch_in s n)); [apply Lrel_switch_in|]. apply Lrel_modth. intro th. destruct ce; lsame. }
+  assert (R : Lrel s s2). { unfold s2. apply (Lrel_trans s (switch_in s n)); [apply Lrel_switch_in|]. apply Lrel_modth. destruct ce; lsame. }
   apply (invL_pend s2 v _ (PSwitch c d)); [apply (invL_frame s); auto| eapply pend_ok_rel; eauto | reflexivity].
 Qed.
 
@@ -339,4 +339,256 @@ Proof.
     - intro t. unfold s1. cbn [s_th set_s_th]. unfold updp. destruct (Nat.eqb t k); [|apply (l_thr _ I)].
       apply thr_ok_zero; reflexivity. }
   apply (invL_frame s1); auto. apply Lrel_modvc. intro; reflexivity.
+Qed.
+
+(* replacing the record of ONE thread t to which no pending action refers *)
+Lemma invL_modth_free : forall s t f, InvL s ->
+  (forall v, v_pend (s_vc s v) <> PDie t) ->
+  (forall v f', v_pend (s_vc s v) <> PSwitch f' (DUnlock t)) ->
+  thr_ok (f (s_th s t)) -> InvL (modth s t f).
+Proof.
+  intros s t f I Nd Nu Hok. constructor.
+  - intros v x E. rewrite vc_modth in E. destruct (l_die _ I v x E) as (a & b & c & d).
+    assert (x <> t) by (intro; subst; eapply Nd; eauto).
+    rewrite th_modth. apply Nat.eqb_neq in H. rewrite H. repeat split; auto.
+  - intros v f' x E. rewrite vc_modth in E. destruct (l_unl _ I v f' x E) as (a & b & c & d).
+    assert (x <> t) by (intro; subst; eapply Nu; eauto).
+    rewrite th_modth. apply Nat.eqb_neq in H. rewrite H. repeat split; auto.
+  - intro x. rewrite th_modth. destruct (Nat.eqb x t) eqn:E; [|apply (l_thr _ I)]. exact Hok.
+Qed.
+
+Lemma invL_die : forall s v rv s', Inv2 s -> InvL s -> head_run s v -> do_die s v rv = Some s' -> InvL s'.
+Proof.
+  intros s v rv s' I2 I Hr. unfold do_die, getvc, getth.
+  destruct (v_runq (s_vc s v)) as [|c [|n rest]] eqn:Hq;
+    try (intro H; inversion H; subst; apply (invL_frame s); [apply Lrel_same; reflexivity|auto]).
+  cbv zeta. destruct (lock_free (th_lock (s_th s c))) eqn:Lk; cbn [andb negb]; [|discriminate].
+  match goal with |- (if negb ?b then _ else _) = _ -> _ => destruct b end; cbn [negb]; [|discriminate].
+  intro H. inversion H; subst s'; clear H.
+  pose proof (Hr c _ Hq) as Ec.
+  assert (Fin0 : g_finished (s_th s c) = 0). { destruct (I2 c) as (a & _). rewrite a, Ec. reflexivity. }
+  assert (Lf : th_lock (s_th s c) = LFree) by (destruct (th_lock (s_th s c)); try discriminate; reflexivity).
+  set (s1 := match th_joiners (s_th s c) with j :: _ => wake s v j (-1) | [] => s end).
+  set (s2 := switch_in s1 n).
+  assert (R : Lrel s s2).
+  { unfold s2. apply (Lrel_trans s s1); [|apply Lrel_switch_in]. unfold s1. destruct (th_joiners _); [apply Lrel_refl|apply Lrel_wake]. }
+  clearbody s2. clear s1.
+  pose proof (invL_frame s s2 R I) as J2. destruct R as [Rt Rp].
+  destruct (Rt c) as (h1&h2&h3&h4&h5&h6&h7&h8).
+  assert (Nd : forall v0, v_pend (s_vc s2 v0) <> PDie c).
+  { intros v0 E. destruct (l_die _ J2 v0 c E) as (a & _). rewrite h7 in a. lia. }
+  assert (Nu : forall v0 f', v_pend (s_vc s2 v0) <> PSwitch f' (DUnlock c)).
+  { intros v0 f' E. destruct (l_unl _ J2 v0 f' c E) as (a & _). rewrite h1, Lf in a. discriminate. }
+  destruct (l_thr _ J2 c) as [T1 T2].
+  assert (Jr : g_joinret (s_th s2 c) = 0 /\ (th_joinable (s_th s2 c) = true -> g_disposed (s_th s2 c) = 0)).
+  { destruct T1 as [T1|(a & b & c0 & d & _)]; auto. rewrite h7 in d. lia. }
+  assert (Dz : g_disposed (s_th s2 c) = 0).
+  { destruct (th_joinable (s_th s2 c)) eqn:Ej; [apply Jr; auto|].
+    destruct (T2 eq_refl) as (a & b). destruct (g_disposed (s_th s2 c)) as [|[|k]]; auto; [|lia].
+    destruct (b eq_refl) as (b1 & _). rewrite h7 in b1. lia. }
+  match goal with |- InvL (modvc (modth s2 c ?f) v ?g) =>
+    assert (J3 : InvL (modth s2 c f)) end.
+  { apply invL_modth_free; auto. unfold thr_ok. cbn. destruct Jr as [j1 j2]. split; [left; auto|].
+    intros _. rewrite Dz. split; [lia|]. intro X. discriminate. }
+  eapply (invL_pend _ v _ (PDie c)); [exact J3| |reflexivity].
+  unfold pend_ok. rewrite th_modth, Nat.eqb_refl. cbn. rewrite h7, Fin0. repeat split; auto.
+Qed.
+
+Lemma invL_exec_pend : forall s v, Inv2 s -> InvL s -> InvL (exec_pend s v).
+Proof.
+  intros s v I2 I. unfold exec_pend, getvc, getth.
+  destruct (v_pend (s_vc s v)) as [|from d|t] eqn:Ep; auto.
+  - assert (I0 : InvL (modvc s v (fun x => set_v_pend x PNone))).
+    { apply (invL_pend s v _ PNone); auto. exact Logic.I. }
+    destruct d as [|t|t u]; auto.
+    + (* DUnlock t *)
+      destruct (l_unl _ I v from t Ep) as (a & b & c & d).
+      apply invL_modth_free; auto.
+      * intros v0 E. rewrite vc_modvc in E. destruct (Nat.eqb v0 v) eqn:E0; [cbn in E; discriminate|].
+        destruct (l_die _ I v0 t E) as (_ & x & _). congruence.
+      * intros v0 f' E. rewrite vc_modvc in E. destruct (Nat.eqb v0 v) eqn:E0; [cbn in E; discriminate|].
+        apply Nat.eqb_neq in E0. apply E0. eapply d; eauto.
+      * rewrite th_modvc. destruct (l_thr _ I t) as [T1 T2]. unfold thr_ok. cbn.
+        split.
+        -- destruct T1 as [T1|(x & _)]; [left; auto|lia].
+        -- intro Ej. destruct (T2 Ej) as (x & y). split; auto. intro Z. destruct (y Z) as (_ & y2). congruence.
+    + (* DMigrate *)
+      destruct (do_migrate _ v t u) as [[s1 b]|] eqn:M; auto.
+      apply (invL_frame (modvc s v (fun x => set_v_pend x PNone))); auto. eapply Lrel_migrate; eauto.
+  - (* PDie t *)
+    destruct (l_die _ I v t Ep) as (a & b & c & d).
+    assert (I0 : InvL (modvc s v (fun x => set_v_pend x PNone))).
+    { apply (invL_pend s v _ PNone); auto. exact Logic.I. }
+    assert (Nd : forall v0, v_pend (s_vc (modvc s v (fun x => set_v_pend x PNone)) v0) <> PDie t).
+    { intros v0 E. rewrite vc_modvc in E. destruct (Nat.eqb v0 v) eqn:E0; [cbn in E; discriminate|].
+      apply Nat.eqb_neq in E0. apply E0. eapply d; eauto. }
+    assert (Nu : forall v0 f', v_pend (s_vc (modvc s v (fun x => set_v_pend x PNone)) v0) <> PSwitch f' (DUnlock t)).
+    { intros v0 f' E. rewrite vc_modvc in E. destruct (Nat.eqb v0 v) eqn:E0; [cbn in E; discriminate|].
+      destruct (l_unl _ I v0 f' t E) as (x & _). congruence. }
+    destruct (l_thr _ I t) as [T1 T2].
+    rewrite th_modvc.
+    destruct (th_joinable (s_th s t)) eqn:Ej; apply invL_modth_free; auto; rewrite th_modvc; unfold thr_ok; cbn; rewrite ?Ej.
+    + split; [|intro; discriminate]. destruct T1 as [T1|(_ & _ & _ & _ & x & _)]; [left; auto|congruence].
+    + split.
+      * destruct T1 as [(x & y)|(_ & x & _)]; [left; split; auto; intro; discriminate|congruence].
+      * intros _. rewrite c. split; [lia|]. intros _. auto.
+Qed.
+
+Lemma invL_join_check : forall s v c j, Inv2 s -> InvL s -> InvL (join_check s v c j).
+Proof.
+  intros s v c j I2 I. unfold join_check, getth.
+  destruct (tstate_eqb (th_state (s_th s j)) NOTCREATED) eqn:Enc. { apply (invL_frame s); [apply Lrel_same; reflexivity|auto]. }
+  destruct (th_joinable (s_th s j)) eqn:Ej; cbn [negb]; [|apply (invL_frame s); [apply Lrel_ret|auto]].
+  destruct (lock_free (th_lock (s_th s j))) eqn:Lk; cbn [negb]; auto.
+  assert (Lf : th_lock (s_th s j) = LFree) by (destruct (th_lock (s_th s j)); try discriminate; reflexivity).
+  assert (Nd : forall v0, v_pend (s_vc s v0) <> PDie j).
+  { intros v0 E. destruct (l_die _ I v0 j E) as (_ & x & _). congruence. }
+  assert (Nu : forall v0 f', v_pend (s_vc s v0) <> PSwitch f' (DUnlock j)).
+  { intros v0 f' E. destruct (l_unl _ I v0 f' j E) as (x & _). congruence. }
+  destruct (l_thr _ I j) as [T1 T2].
+  assert (Jr : g_joinret (s_th s j) = 0 /\ g_disposed (s_th s j) = 0).
+  { destruct T1 as [(x & y)|(_ & _ & _ & _ & x & _)]; [split; auto|congruence]. }
+  destruct Jr as [Jr Dz].
+  destruct (tstate_eqb (th_state (s_th s j)) DONE) eqn:Ed.
+  - (* DONE: retval, dispose *)
+    assert (Fin : g_finished (s_th s j) = 1). { destruct (I2 j) as (a & _). rewrite a, Ed. reflexivity. }
+    apply (invL_frame (modth s j (fun x => set_g_joinval (set_g_joinret (set_g_disposed (set_th_lock x LJoin) (S (g_disposed x))) (S (g_joinret x))) (th_retval x))));
+      [apply Lrel_ret|].
+    apply invL_modth_free; auto. unfold thr_ok. cbn. rewrite Ej, Jr, Dz, Fin. split; [right; repeat split; auto|intro; discriminate].
+  - destruct (negb _); auto.
+    (* cond.wait(lock): keep the lock, sleep, unlock on the next stack *)
+    set (s1 := modth s j (fun x => set_th_lock x LJoin)).
+    assert (I1 : InvL s1).
+    { apply invL_modth_free; auto. unfold thr_ok. cbn. rewrite Ej, Jr, Dz. split; [left; auto|intro; discriminate]. }
+    apply invL_sleep.
+    + apply (invL_frame s1); auto. apply Lrel_setk.
+    + intro c0. apply (pend_ok_rel s1); [apply Lrel_setk|].
+      assert (Snc : th_state (s_th s j) <> NOTCREATED). { intro X. rewrite X in Enc. discriminate. }
+      unfold pend_ok, s1. rewrite th_modth, Nat.eqb_refl. cbn. repeat split; auto.
+Qed.
+
+Ltac lframe := first [ eapply invL_frame; [first [apply Lrel_ret | apply Lrel_setk | apply Lrel_refl]|] ].
+Lemma pend_ok_trivial_none : forall s v c, pend_ok s v (PSwitch c DNone). Proof. intros. exact Logic.I. Qed.
+Lemma pend_ok_trivial_mig : forall s v c t u, pend_ok s v (PSwitch c (DMigrate t u)). Proof. intros. exact Logic.I. Qed.
+
+Lemma invL_exec_op : forall progs s v c o, Inv2 s -> InvL s -> InvL (exec_op progs s v c o).
+Proof.
+  intros progs s v c o I2 I. unfold exec_op, getth, getvc.
+  destruct o as [d| |j e|j jn ws|j| | |j|j u].
+  - destruct (th_k (s_th s c)) as [|[|k]].
+    + destruct (expired _ _).
+      * apply invL_yield; [lframe; auto|intro; exact Logic.I].
+      * destruct (lock_free _); auto. apply invL_sleep; [lframe; auto|intro; exact Logic.I].
+    + pose proof (Lrel_sen s c) as X. destruct (set_error_number s c) as [[s1 r] e]. cbn in X.
+      lframe. eapply invL_frame; eauto.
+    + destruct (Z.eqb _ 0); lframe; auto.
+  - destruct (th_k (s_th s c)).
+    + apply invL_yield; [lframe; auto|intro; exact Logic.I].
+    + lframe; auto.
+  - destruct (alive progs s j); [|lframe; auto].
+    destruct (do_interrupt s v j e) as [s1|] eqn:D; auto.
+    lframe. eapply invL_frame; [eapply Lrel_interrupt; eauto|auto].
+  - destruct (_ && _) eqn:C; [|lframe; auto].
+    lframe. apply invL_create; auto.
+    apply andb_true_iff in C. destruct C as [_ C]. unfold getth in C.
+    destruct (th_state (s_th s j)); try discriminate; reflexivity.
+  - destruct (th_k (s_th s c)) as [|[|k]].
+    + destruct (_ && _); [|lframe; auto]. lframe. eapply invL_frame; [|eauto]. apply Lrel_modth. lsame.
+    + now apply invL_join_check.
+    + pose proof (Lrel_sen s c) as X. destruct (set_error_number s c) as [[s1 r] e]. cbn in X.
+      lframe. eapply invL_frame; eauto.
+  - lframe; auto.
+  - lframe; auto.
+  - destruct (_ && _); lframe; auto.
+  - destruct (th_k (s_th s c)); [|lframe; auto].
+    destruct (negb _); [lframe; auto|].
+    destruct (Nat.eqb u v); [lframe; auto|].
+    destruct (Nat.eqb j c).
+    { apply invL_yield; [lframe; auto|intro; exact Logic.I]. }
+    destruct (negb _); [lframe; auto|].
+    destruct (negb _); [lframe; auto|].
+    destruct (do_migrate s v j u) as [[s1 [|]]|] eqn:M; auto; lframe; (eapply invL_frame; [eapply Lrel_migrate; eauto|auto]).
+Qed.
+
+Lemma invL_step_vcpu : forall progs s v, Inv2 s -> InvL s -> InvL (step_vcpu progs s v).
+Proof.
+  intros progs s v I2 I. unfold step_vcpu, getvc, getth.
+  destruct (negb _). { now apply invL_exec_pend. }
+  destruct (v_runq (s_vc s v)) as [|c rest] eqn:Hq. { apply (invL_frame s); [apply Lrel_same; reflexivity|auto]. }
+  destruct (th_state (s_th s c)) eqn:Es; try (apply (invL_frame s); [apply Lrel_same; reflexivity|auto]).
+  assert (Hr : head_run s v). { intros c' r' E. rewrite Hq in E. inversion E; subst. auto. }
+  destruct (th_kind (s_th s c)).
+  - destruct (nth_error _ _); [now apply invL_exec_op|].
+    destruct (th_k (s_th s c)).
+    + destruct (lock_free _); auto. apply invL_sleep; [lframe; auto|intro; exact Logic.I].
+    + pose proof (Lrel_sen s c) as X. destruct (set_error_number s c) as [[s1 r] e]. cbn in X.
+      lframe. eapply invL_frame; eauto.
+  - destruct rest; auto. apply invL_yield; auto. intro; exact Logic.I.
+  - destruct (nth_error _ _); [now apply invL_exec_op|].
+    destruct (do_die s v _) as [s1|] eqn:D; auto. eapply invL_die; eauto.
+Qed.
+
+Lemma invL_step : forall progs s l, Inv2 s -> InvL s -> InvL (step progs s l).
+Proof.
+  intros progs s l I2 I. unfold step. destruct (s_stuck s); [exact I|].
+  destruct l as [v|v|v|v u t|d].
+  - destruct (Nat.ltb _ _); [|exact I]. now apply invL_step_vcpu.
+  - destruct (_ && _); [|exact I]. unfold do_drain. eapply invL_frame; [apply Lrel_drain_list|exact I].
+  - destruct (_ && _); [|exact I]. eapply invL_frame; [apply Lrel_resume|exact I].
+  - destruct (_ && _); [|exact I]. eapply invL_frame; [apply Lrel_steal|exact I].
+  - destruct (Z.leb _ _); [|exact I]. eapply invL_frame; [|exact I]. apply Lrel_same; reflexivity.
+Qed.
+
+Lemma inv12L_run : forall progs ls s, Inv1 s -> Inv2 s -> InvL s ->
+  Inv1 (run progs s ls) /\ Inv2 (run progs s ls) /\ InvL (run progs s ls).
+Proof.
+  induction ls; cbn; intros s I1 I2 IL; auto.
+  destruct (inv12_step progs s a I1 I2). apply IHls; auto. now apply invL_step.
+Qed.
+
+Lemma invL_init : forall nv n flags t0, nv <= n -> InvL (init_state nv n flags t0).
+Proof.
+  intros nv n flags t0 Hn. constructor.
+  - intros v t. unfold init_state. cbn [s_vc]. destruct (init_vcpu_cases nv n flags v) as [(V1 & _)|[V1 E]].
+    + unfold init_vcpu. assert (Nat.ltb v nv = true) as -> by (now apply Nat.ltb_lt). cbn. discriminate.
+    + rewrite E. cbn. discriminate.
+  - intros v f t. unfold init_state. cbn [s_vc]. destruct (init_vcpu_cases nv n flags v) as [(V1 & _)|[V1 E]].
+    + unfold init_vcpu. assert (Nat.ltb v nv = true) as -> by (now apply Nat.ltb_lt). cbn. discriminate.
+    + rewrite E. cbn. discriminate.
+  - intro t. unfold init_state. cbn [s_th].
+    destruct (init_thread_cases nv n t Hn) as [[_ ->]|[[_ ->]|(_ & _ & ->)]]; apply thr_ok_zero; reflexivity.
+Qed.
+
+(* ---- join_exact ---------------------------------------------------------------------------- *)
+Lemma join_exact_proof : forall progs nv n flags t0 s, nv <= n -> reachable progs nv n flags t0 s ->
+  forall t,
+    (* thread_join(t) returns at most once; when it has returned the entry function of t had returned
+       (t is DONE) and the value handed to the joiner is its return value *)
+    g_joinret (s_th s t) <= 1 /\
+    (g_joinret (s_th s t) = 1 -> th_state (s_th s t) = DONE /\ g_joinval (s_th s t) = th_retval (s_th s t) /\ th_joinable (s_th s t) = true) /\
+    (* the stack is handed back at most once, only after the thread is DONE, and never while the dying
+       thread's own switch (PDie) is still pending, i.e. while a vCPU may still be on that stack *)
+    g_disposed (s_th s t) <= 1 /\
+    (g_disposed (s_th s t) = 1 -> th_state (s_th s t) = DONE /\ forall v, v_pend (s_vc s v) <> PDie t) /\
+    (* joinable: released exactly when (and not before) the join returns *)
+    (th_joinable (s_th s t) = true -> g_disposed (s_th s t) = g_joinret (s_th s t)) /\
+    (* not joinable: never joined *)
+    (th_joinable (s_th s t) = false -> g_joinret (s_th s t) = 0).
+Proof.
+  intros progs nv n flags t0 s Hn [ls ->] t.
+  destruct (inv12L_run progs ls _ (inv1_init nv n flags t0 Hn) (inv2_init nv n flags t0 Hn) (invL_init nv n flags t0 Hn))
+    as (I1 & I2 & IL).
+  set (s := run progs (init_state nv n flags t0) ls) in *.
+  destruct (l_thr _ IL t) as [T1 T2]. destruct (I2 t) as (a & _).
+  assert (FD : g_finished (s_th s t) = 1 -> th_state (s_th s t) = DONE).
+  { rewrite a. destruct (th_state (s_th s t)); cbn; intros; try discriminate; reflexivity. }
+  assert (ND : g_disposed (s_th s t) = 1 -> forall v, v_pend (s_vc s v) <> PDie t).
+  { intros D v E. destruct (l_die _ IL v t E) as (_ & _ & z & _). lia. }
+  destruct (th_joinable (s_th s t)) eqn:Ej.
+  - destruct T1 as [(x & y)|(x & _ & y & z & _ & w)].
+    + rewrite x, (y eq_refl). repeat split; auto; try lia; intros; try discriminate.
+    + rewrite x, y. repeat split; auto; try lia; intros; try discriminate; auto.
+  - destruct (T2 eq_refl) as (d1 & d2).
+    destruct T1 as [(x & y)|(_ & x & _)]; [|discriminate].
+    rewrite x. repeat split; auto; try lia; intros; try discriminate; try (apply FD; apply d2; auto); try (apply ND; auto).
 Qed.
